@@ -41,6 +41,23 @@ CHECKS["C19"] = {
     ],
 }
 
+KSP = "./provider/keystore/"
+CHECKS["C20"] = {
+    "engine": "storesched",
+    "level": "fault_enumeration",
+    "technique": "model-based property testing (rapid) + exhaustive crash-point enumeration per generated history on a journaling datastore; schedule-controlled reset interleavings; datastore error injection",
+    "level_text": "Generated histories are compared with a set model after every step; for every history every crash instant and every admissible "
+                  "journal cut (per physical datastore, respecting Sync) is enumerated and the keystore reopened on the reconstructed state. Reset interleavings "
+                  "with concurrent puts are driven through yield points, and every datastore call of a reset is failed in turn. Fault points are enumerated "
+                  "exhaustively per history; histories themselves are sampled.",
+    "level_note": "Crash model: per-datastore journal prefix containing everything up to the last Sync, atomic batch commits, immediate durable destroy; "
+                  "torn writes and reordering of unsynced writes are not modelled. In-memory journaling datastore stands in for pebble/leveldb.",
+    "parts": [
+        {"part": "history-crash", "pkg": KSP, "test": "TestVerif_C20_History", "quick": 1500, "thorough": 20000},
+        {"part": "reset-faults", "pkg": KSP, "test": "TestVerif_C20_ResetFaults", "quick": 300, "thorough": 4000},
+    ],
+}
+
 MANIFEST_HEAD = {
     "version": 1,
     "setup_cmd": "bin/check --setup",
